@@ -120,8 +120,11 @@ fn setup(kind: Kind, shape: &Shape, value: u64, spec: SpecId, warm: Warm) -> Set
     Setup { world_full: w, target, tx, block }
 }
 
-/// run on a holder; returns (outcome, post world as read through the holder)
-fn run_on(holder: &str, s: &Setup, spec: SpecId) -> Result<(TxOutcome, World), String> {
+/// the target as the transaction's returned state shows it (whether or not it is marked touched)
+type Returned = Option<(u64, U256, revm::primitives::B256)>;
+
+/// run on a holder; returns (outcome, post world as read through the holder, target in the returned state)
+fn run_on(holder: &str, s: &Setup, spec: SpecId) -> Result<(TxOutcome, World, Returned), String> {
     let uni: BTreeMap<Address, std::collections::BTreeSet<U256>> = [s.target, CREATOR, SENDER1].iter().map(|a| (*a, (0..5u64).map(U256::from).collect())).collect();
     let codes = BTreeMap::new();
     let tacc = s.world_full.accounts.get(&s.target).cloned();
@@ -133,11 +136,13 @@ fn run_on(holder: &str, s: &Setup, spec: SpecId) -> Result<(TxOutcome, World), S
             let mut db = $db;
             let res = crate::wrun::transact_plain(&mut db, spec, &s.block, &s.tx);
             let out = outcome_of(&res.as_ref().map(|r| r.result.clone()).map_err(|e| e.clone()));
+            let mut ret: Returned = None;
             if let Ok(rs) = res {
+                ret = rs.state.get(&s.target).map(|a| (a.info.nonce, a.info.balance, a.info.code_hash));
                 db.commit(rs.state);
             }
             let w = crate::statehist::read_universe(&mut db, &uni, &codes)?;
-            Ok((out, w))
+            Ok((out, w, ret))
         }};
     }
     match holder {
@@ -147,15 +152,26 @@ fn run_on(holder: &str, s: &Setup, spec: SpecId) -> Result<(TxOutcome, World), S
             let mut db = RefDB::new(s.world_full.clone(), spec);
             let res = crate::wrun::transact_plain(revm::db::WrapDatabaseRef(&db), spec, &s.block, &s.tx);
             let out = outcome_of(&res.as_ref().map(|r| r.result.clone()).map_err(|e| e.clone()));
+            let mut ret: Returned = None;
             if let Ok(rs) = res {
+                ret = rs.state.get(&s.target).map(|a| (a.info.nonce, a.info.balance, a.info.code_hash));
                 db.commit(rs.state);
             }
             let w = crate::statehist::read_universe(&mut db, &uni, &codes)?;
-            Ok((out, w))
+            Ok((out, w, ret))
         }
         "State<RefDB>" => go!(crate::statehist::new_state(RefDB::new(s.world_full.clone(), spec), spec, false, None)),
         "State+cached-prestate" => {
-            let mut st = crate::statehist::new_state(RefDB::new(without_target, spec), spec, false, None);
+            // (the account lives only in State's cache; its code is known to the database by hash, as
+            // it would be for any real backing store — State's insert_account* helpers do not
+            // register code for code_by_hash)
+            let mut base = RefDB::new(without_target, spec);
+            if let Some(t) = &tacc {
+                if !t.code.is_empty() {
+                    base.codes.insert(code_hash(&t.code), t.code.clone());
+                }
+            }
+            let mut st = crate::statehist::new_state(base, spec, false, None);
             if let Some(t) = &tacc {
                 let storage: HashMap<U256, U256> = t.storage.iter().map(|(k, v)| (*k, *v)).collect();
                 st.insert_account_with_storage(s.target, info_of(t), storage);
@@ -192,7 +208,7 @@ fn check(kind: Kind, shape: &Shape, value: u64, spec: SpecId, holder: &str, warm
         (_, true, _) => "target-with-nonce",
     };
     let r = guarded(|| run_on(holder, &s, spec));
-    let (out, post) = match r {
+    let (out, post, returned) = match r {
         Err(p) => {
             report_panic(rep, "C21", &p, case());
             return;
@@ -227,6 +243,15 @@ fn check(kind: Kind, shape: &Shape, value: u64, spec: SpecId, holder: &str, warm
         // nothing changes at the target, value not moved
         if pre_t != post_t {
             rep.violation(format!("C21/target-changed-by-collision/{shape_name}/{holder}"), format!("target before {:?} after {:?}", pre_t, post_t), case());
+        }
+        // also in the state the transaction returns, whether or not the account is marked touched
+        // (a caller that inspects or merges the returned state sees it)
+        if let (Some(p), Some((n, b, h))) = (&pre_t, returned) {
+            let hh = if h.is_zero() { revm::primitives::KECCAK_EMPTY } else { h };
+            if n != p.nonce || b != p.balance || hh != code_hash(&p.code) {
+                rep.violation(format!("C21/target-changed-in-returned-state/{shape_name}/{holder}"), format!("target before: nonce {} balance {} ; in the returned state: nonce {n} balance {b} code hash {hh}", p.nonce, p.balance), case());
+            }
+            rep.count("collisions_with_target_in_returned_state");
         }
         match kind {
             Kind::CreateTx => {
